@@ -1,6 +1,8 @@
 SPECIFICATION Spec
 CONSTANTS
   NSeg = 2
+  NPart = 1
+  TokenCap = 0
   Fmp4 = TRUE
   Variant = "startNoSelect"
   MaxReq = 5
